@@ -1150,6 +1150,9 @@ fn gen_c05(o: &mut Out, r: &mut Rng, d: &GDict, tier: &str) {
                 o.line("ench");
                 o.line("encw 100000 0 0 err");
                 o.line("encw 100000 1 2 zero");
+                // through the stream codec: nothing of an unencodable message may reach the stream
+                o.line("senc -");
+                o.line("senc a1,p,a3");
             }
         }
     }
